@@ -238,6 +238,28 @@ func c10literals(quick bool) []c10lit {
 			}
 		}
 	}
+	// INEXACT decimal doubles, bounded families enumerated completely. Such literals are rounded
+	// by the parser; a decimal-to-binary conversion that rounds twice (to 64 bits, then to 53) is
+	// off by one ulp on about one 8-digit literal in 4000 (and on no 5-digit one): every 5-digit
+	// significand dd.ddd, every 8-digit literal 34.000000 .. 34.199999 (thorough: 10.000000 ..
+	// 10.999999 and 34.000000 .. 34.999999, and the 5-digit significands with exponents e-07, e+25).
+	for m := 10000; m <= 99999; m++ {
+		lits = append(lits, c10lit{2, fmt.Sprintf("%d.%03d", m/1000, m%1000), "decimal-inexact", "normal"})
+		if !quick {
+			lits = append(lits, c10lit{2, fmt.Sprintf("%d.%04de-07", m/10000, m%10000), "decimal-inexact", "normal"})
+			lits = append(lits, c10lit{2, fmt.Sprintf("%d.%04de+25", m/10000, m%10000), "decimal-inexact", "normal"})
+		}
+	}
+	hi := 34199999
+	if !quick {
+		hi = 34999999
+		for m := 10000000; m <= 10999999; m++ {
+			lits = append(lits, c10lit{2, fmt.Sprintf("%d.%06d", m/1000000, m%1000000), "decimal-inexact", "normal"})
+		}
+	}
+	for m := 34000000; m <= hi; m++ {
+		lits = append(lits, c10lit{2, fmt.Sprintf("%d.%06d", m/1000000, m%1000000), "decimal-inexact", "normal"})
+	}
 	// a few hand-picked decimal spellings.
 	for _, s := range []string{"0.0", "-0.0", "1.0", "1.5", "0.1", "3.141592653589793", "1e10", "1.0e+10", "2.5e-3", "123456789.0", "1e308", "4.9406564584124654e-324", "1.7976931348623157e+308", "0.30000000000000004"} {
 		lits = append(lits, c10lit{2, s, "decimal", "normal"})
@@ -412,7 +434,7 @@ func runC10(c *fw.Check) {
 		fw.Fatalf("C10 needs llvm-as-14/llvm-dis-14 (bitcast folding gives LLVM's bit pattern of a literal)")
 	}
 	lits := c10literals(c.Quick())
-	c.Rule = "half: ALL 2^16 bit patterns in 0xH form, as 16-digit double hex and (finite ones) as exact decimal; float, double, x86_fp80, fp128: both signs x every exponent (x86_fp80/fp128 quick: all exponents within 40 of zero/bias/max and powers of two; thorough: every exponent) x a mantissa family (0, 1, 2, all-ones, top bit, top two, alternating, top|1, and single-bit walks at boundary exponents / everywhere in thorough), i.e. every zero/subnormal/normal/inf/quiet/signalling/payload class; ppc_fp128: 256 pairs of boundary doubles; decimal spellings of sparse-mantissa values. Oracle: the bit pattern LLVM assigns to the input literal (llvm-as folds `bitcast (T lit to iN)`, read back from llvm-dis) equals the one it assigns to the literal the library prints; LLVM must accept the printed literal; the library must read its own output back to the same literal. distinct = (kind, literal)."
+	c.Rule = "half: ALL 2^16 bit patterns in 0xH form, as 16-digit double hex and (finite ones) as exact decimal; float, double, x86_fp80, fp128: both signs x every exponent (x86_fp80/fp128 quick: all exponents within 40 of zero/bias/max and powers of two; thorough: every exponent) x a mantissa family (0, 1, 2, all-ones, top bit, top two, alternating, top|1, and single-bit walks at boundary exponents / everywhere in thorough), i.e. every zero/subnormal/normal/inf/quiet/signalling/payload class; ppc_fp128: 256 pairs of boundary doubles; decimal spellings of sparse-mantissa values; inexact decimal doubles: every 5-digit significand as dd.ddd and every 8-digit literal 34.000000..34.199999 (thorough: 10.000000..10.999999, 34.000000..34.999999, and 5-digit significands with exponents e-07 and e+25). Oracle: the bit pattern LLVM assigns to the input literal (llvm-as folds `bitcast (T lit to iN)`, read back from llvm-dis) equals the one it assigns to the literal the library prints; LLVM must accept the printed literal; the library must read its own output back to the same literal. distinct = (kind, literal)."
 	const batch = 2000
 	type job struct {
 		k    int
